@@ -90,11 +90,13 @@ Print Assumptions C04_once.
 
 (* ---- ... with its own reply ---- *)
 (* a reply bearing the (type, id) of a pending request whose future is not yet done removes exactly that record and
-   completes exactly that future with the reply's content (or the error it carries); nothing else changes *)
+   completes exactly that future with the reply's content (or the error it carries); nothing else changes.
+   (Stated for futures without a callback that re-enters the API, [AReact]; with one, the request it issues follows
+   the completion: C04_ids / C04_once / C04_tables_disjoint / C04_only_protocol_error quantify over those too.) *)
 Theorem C04_once_content : forall fl cfg s o v k i c r,
   transport s = true -> sid s = Some v ->
   reply_spec o = Some (k, i, c) -> find_req k i (pend s) = Some r -> is_done s (r_fut r) = false ->
-  reply_wellformed s o ->
+  reply_wellformed s o -> assoc (r_fut r) (reacts s) = None ->
   let '(s', outs) := step fl cfg s o in
   pend s' = remove_req k i (pend s) /\ done s' = done s ++ [(r_fut r, c r)] /\ user_sees fl s s' outs (r_fut r) (c r)
   /\ issued s' = issued s /\ lost s' = lost s /\ next_id s' = next_id s /\ sid s' = sid s.
@@ -122,6 +124,7 @@ Print Assumptions C04_pending_not_done.
    not raise.  [api_request] covers all six request kinds. *)
 Theorem C04_reply_during_send : forall fl cfg s a r v k co t c,
   transport s = true -> topen s = true -> sid s = Some v -> is_done s (next_fut s) = false ->
+  assoc (next_fut s) (reacts s) = None ->
   api_request s a = Some (k, co, t) ->
   reply_spec r = Some (k, idgen_next (next_id s), c) ->
   match r with RRegistered _ g => assoc g (regs s) = None | _ => True end ->
@@ -151,6 +154,7 @@ Print Assumptions C04_tables_disjoint.
    that can become done is the one stored under (k, i), and every record under another key stays *)
 Theorem C04_no_cross : forall fl cfg s o v k i c,
   transport s = true -> sid s = Some v -> reply_spec o = Some (k, i, c) ->
+  (forall r, find_req k i (pend s) = Some r -> assoc (r_fut r) (reacts s) = None) ->
   let s' := fst (step fl cfg s o) in
   (forall f, is_done s' f = true -> is_done s f = true \/ exists r, find_req k i (pend s) = Some r /\ r_fut r = f)
   /\ (forall r', In r' (pend s) -> req_key r' <> (k, i) -> In r' (pend s'))
@@ -217,11 +221,20 @@ Qed.
 Print Assumptions C04_reply_completes_refuted_duplicate_registration.
 
 (* ---- non-vacuity ---- *)
+(* the retry idiom: the errback of a call re-issues the call when the ERROR arrives (Twisted: inside onMessage) *)
+Example C04_witness_reentrant_errback :
+  trace Tx default_cfg [OOpen; RWelcome 9; ACall 1 [] [] None; AReact 0 (ACall 1 [] [] None);
+                        RError T_CALL 1 3 {| p_args := None; p_kw := None |}; RResult 2 false {| p_args := Some [5]; p_kw := None |}]
+  = [Called CbConnect; Sent MHello; Called CbWelcome; Called (CbJoin 9); Sent (MCall 1 1 [] [] None false); ApiReturned (Some 0);
+     Completed 0 (RErr (EApp 3 {| p_args := None; p_kw := None |})); Sent (MCall 2 1 [] [] None false); ApiReturned (Some 1);
+     Completed 1 (ROk (VSingle 5))].
+Proof. vm_compute. reflexivity. Qed.
+
 (* UNREGISTERED delivered from inside the send() of UNREGISTER: the hypotheses of C04_reply_during_send are met *)
 Example C04_witness_reply_during_send :
   let s := final Tx default_cfg [OOpen; RWelcome 9; ARegister 1 None; RRegistered 1 55] in
   transport s = true /\ topen s = true /\ sid s = Some 9 /\ is_done s (next_fut s) = false
-  /\ api_request s (AUnregister 0) = Some (KUnregister, None, 55)
+  /\ assoc (next_fut s) (reacts s) = None /\ api_request s (AUnregister 0) = Some (KUnregister, None, 55)
   /\ reply_spec (RUnregistered 2 None) = Some (KUnregister, idgen_next (next_id s), fun _ => ROk VNone)
   /\ trace Tx default_cfg [OOpen; RWelcome 9; ARegister 1 None; RRegistered 1 55; AUnregister 0; RUnregistered 2 None]
      = [Called CbConnect; Sent MHello; Called CbWelcome; Called (CbJoin 9); Sent (MRegister 1 1 0 0); ApiReturned (Some 0);
